@@ -65,10 +65,15 @@ func c19r1(c *Check) {
 			bad := 0
 			var at ssa.Instruction
 			for _, a := range acc {
-				if _, held := heldAt(ops, same, a); !held {
+				if _, held := heldExclusiveAt(ops, same, a); !held {
 					bad++
 					at = a
 				}
+			}
+			// a helper that is only ever called with the lock held (hashKey / checkNewer style)
+			if bad > 0 && len(ops) == 0 && calledUnderLock(c.P, fn, lock, 0) {
+				c.Hold(fmt.Sprintf("%s accesses validate.%s", FuncName(fn), gname), c.At(acc[0]), fmt.Sprintf("%d accesses in a helper whose every call site holds validate.lock", len(acc)))
+				continue
 			}
 			key := fmt.Sprintf("%s accesses validate.%s", FuncName(fn), gname)
 			if bad > 0 {
@@ -92,22 +97,43 @@ func c19r2(c *Check) {
 			nLock++
 		}
 	}
-	allInstrs(fn, func(in ssa.Instruction) {
-		switch x := in.(type) {
-		case *ssa.Lookup:
-			if u, ok := x.X.(*ssa.UnOp); ok && u.X == m {
-				lookups = append(lookups, in)
+	// operations in helpers of the package count at the call site in Ordered (helpers take no lock themselves)
+	helperLocks := false
+	var collect func(f *ssa.Function, site ssa.Instruction, depth int)
+	collect = func(f *ssa.Function, site ssa.Instruction, depth int) {
+		at := func(in ssa.Instruction) ssa.Instruction {
+			if site != nil {
+				return site
 			}
-		case *ssa.MapUpdate:
-			if u, ok := x.Map.(*ssa.UnOp); ok && u.X == m {
-				updates = append(updates, in)
-			}
-		case *ssa.Call:
-			if x.Call.IsInvoke() && (x.Call.Method.Name() == "Write" || x.Call.Method.Name() == "Sum64" || x.Call.Method.Name() == "Reset") {
-				hashOps = append(hashOps, in)
+			return in
+		}
+		if f != fn {
+			for _, o := range mutexOps(f) {
+				if o.global == lock {
+					helperLocks = true
+				}
 			}
 		}
-	})
+		allInstrs(f, func(in ssa.Instruction) {
+			switch x := in.(type) {
+			case *ssa.Lookup:
+				if u, ok := x.X.(*ssa.UnOp); ok && u.X == m {
+					lookups = append(lookups, at(in))
+				}
+			case *ssa.MapUpdate:
+				if u, ok := x.Map.(*ssa.UnOp); ok && u.X == m {
+					updates = append(updates, at(in))
+				}
+			case *ssa.Call:
+				if x.Call.IsInvoke() && (x.Call.Method.Name() == "Write" || x.Call.Method.Name() == "Sum64" || x.Call.Method.Name() == "Reset") {
+					hashOps = append(hashOps, at(in))
+				} else if g := x.Call.StaticCallee(); g != nil && g.Blocks != nil && fnPkg(g) == fnPkg(fn) && g != fn && depth < 2 {
+					collect(g, at(in), depth+1)
+				}
+			}
+		})
+	}
+	collect(fn, nil, 0)
 	if len(lookups) == 0 || len(updates) == 0 {
 		anchorFail("validate.Ordered: map lookup/update not found")
 	}
@@ -121,7 +147,7 @@ func c19r2(c *Check) {
 		}
 		return false
 	}
-	bad := nLock != 1
+	bad := nLock != 1 || helperLocks
 	for _, l := range lookups {
 		for _, u := range updates {
 			if between(l, u) {
@@ -147,6 +173,10 @@ func c19r2(c *Check) {
 	if len(hashOps) > 0 {
 		isShared := func(in ssa.Instruction) bool {
 			call := in.(*ssa.Call)
+			if !call.Call.IsInvoke() {
+				// a helper's call site that stands for its hash operations on the package-level hasher
+				return c.P.GlobalOpt("validate", "h") != nil
+			}
 			u, ok := call.Call.Value.(*ssa.UnOp)
 			if !ok {
 				return false
@@ -161,7 +191,7 @@ func c19r2(c *Check) {
 			}
 		}
 		if shared {
-			cfg := &PathCfg{Classify: func(in ssa.Instruction) []string {
+			cfg := &PathCfg{Inline: func(g *ssa.Function) bool { return fnPkg(g) == fnPkg(fn) }, Classify: func(in ssa.Instruction) []string {
 				call, ok := in.(*ssa.Call)
 				if !ok || !call.Call.IsInvoke() {
 					return nil
@@ -218,16 +248,54 @@ func c19r3(c *Check) {
 	m := c.P.Global("validate", "m")
 	tsPar := fn.Params[1]
 	var lookup *ssa.Lookup
-	allInstrs(fn, func(in ssa.Instruction) {
-		if x, ok := in.(*ssa.Lookup); ok {
-			if u, ok := x.X.(*ssa.UnOp); ok && u.X == m {
-				lookup = x
+	for _, f := range samePkgCallees(c.P, fn) {
+		allInstrs(f, func(in ssa.Instruction) {
+			if x, ok := in.(*ssa.Lookup); ok {
+				if u, ok := x.X.(*ssa.UnOp); ok && u.X == m {
+					lookup = x
+				}
 			}
-		}
-	})
+		})
+	}
 	if lookup == nil {
 		anchorFail("validate.Ordered: lookup not found")
 	}
+	// a value seen inside a helper of the package, traced back to Ordered: a helper's parameter is what its
+	// (single) call site passes, a helper's result is what its (single) return returns
+	trace := func(v ssa.Value) ssa.Value {
+		for k := 0; k < 6; k++ {
+			switch x := v.(type) {
+			case *ssa.Parameter:
+				if x.Parent() == fn {
+					return v
+				}
+				args, ok := c.P.paramArgs(x)
+				if !ok || len(args) != 1 {
+					return v
+				}
+				v = args[0]
+			case *ssa.Call:
+				g := x.Call.StaticCallee()
+				if g == nil || g.Blocks == nil || fnPkg(g) != fnPkg(fn) {
+					return v
+				}
+				var rets []ssa.Value
+				allInstrs(g, func(in ssa.Instruction) {
+					if r, ok := in.(*ssa.Return); ok && len(r.Results) == 1 {
+						rets = append(rets, r.Results[0])
+					}
+				})
+				if len(rets) != 1 {
+					return v
+				}
+				v = rets[0]
+			default:
+				return v
+			}
+		}
+		return v
+	}
+	isTs := func(v ssa.Value) bool { return v == ssa.Value(tsPar) || trace(v) == ssa.Value(tsPar) }
 	isOld := func(v ssa.Value) bool {
 		if v == lookup {
 			return true
@@ -238,11 +306,12 @@ func c19r3(c *Check) {
 		return false
 	}
 	cfg := &PathCfg{
+		Inline: func(g *ssa.Function) bool { return fnPkg(g) == fnPkg(fn) },
 		Classify: func(in ssa.Instruction) []string {
 			if mu, ok := in.(*ssa.MapUpdate); ok {
 				if u, ok := mu.Map.(*ssa.UnOp); ok && u.X == m {
 					cls := "update"
-					if mu.Value != tsPar {
+					if !isTs(mu.Value) {
 						cls += ":wrongvalue"
 					}
 					if mu.Key != lookup.Index {
@@ -262,9 +331,9 @@ func c19r3(c *Check) {
 			// normalise to a relation "ts REL old"
 			var rel token.Token
 			switch {
-			case bo.X == tsPar && isOld(bo.Y):
+			case isTs(bo.X) && isOld(bo.Y):
 				rel = bo.Op
-			case bo.Y == tsPar && isOld(bo.X):
+			case isTs(bo.Y) && isOld(bo.X):
 				rel = flipRel(bo.Op)
 			default:
 				return nil
@@ -314,13 +383,15 @@ func c19r3(c *Check) {
 	// key provenance: lookup key derives from hashing the key parameter
 	keyPar := fn.Params[0]
 	wrote := false
-	allInstrs(fn, func(in ssa.Instruction) {
-		if call, ok := in.(*ssa.Call); ok && call.Call.IsInvoke() && call.Call.Method.Name() == "Write" && len(call.Call.Args) == 1 && call.Call.Args[0] == keyPar {
-			wrote = true
-		}
-	})
+	for _, f := range samePkgCallees(c.P, fn) {
+		allInstrs(f, func(in ssa.Instruction) {
+			if call, ok := in.(*ssa.Call); ok && call.Call.IsInvoke() && call.Call.Method.Name() == "Write" && len(call.Call.Args) == 1 && trace(call.Call.Args[0]) == ssa.Value(keyPar) {
+				wrote = true
+			}
+		})
+	}
 	sum := false
-	if call, ok := lookup.Index.(*ssa.Call); ok && call.Call.IsInvoke() && call.Call.Method.Name() == "Sum64" {
+	if call, ok := trace(lookup.Index).(*ssa.Call); ok && call.Call.IsInvoke() && call.Call.Method.Name() == "Sum64" {
 		sum = true
 	}
 	c.Judge(wrote && sum, "validate.Ordered key = hash(name parameter)", c.At(lookup), "the table key is Sum64 of a hash fed with the name parameter", "the per-name table is not keyed by the hash of the name parameter")
@@ -485,4 +556,31 @@ func checkTableConfigLiterals(c *Check) {
 	if n == 0 {
 		anchorFail("no TableConfig composite literal found")
 	}
+}
+
+// calledUnderLock: every call site of fn (static calls only, at least one) lies in a region where
+// the caller holds the package-level mutex `lock`, or in a helper for which the same holds.
+func calledUnderLock(p *Prog, fn *ssa.Function, lock *ssa.Global, depth int) bool {
+	if depth > 2 {
+		return false
+	}
+	ins := p.CG().In[fn]
+	if len(ins) == 0 {
+		return false
+	}
+	for _, e := range ins {
+		if e.Kind != EdgeCall || e.Dyn {
+			return false
+		}
+		ops := mutexOps(e.Caller)
+		same := func(m mutexOp) bool { return m.global == lock }
+		if _, held := heldAt(ops, same, e.Site); held {
+			continue
+		}
+		if len(ops) == 0 && calledUnderLock(p, e.Caller, lock, depth+1) {
+			continue
+		}
+		return false
+	}
+	return true
 }
